@@ -130,6 +130,12 @@ func Thorough() bool { return vec.Thorough }
 // KnownFinding marks the input region of a recorded finding (see DESIGN §2.8). Natively false.
 func KnownFinding(id string, region bool) bool { return false }
 
+var cleanups []func()
+
+// Cleanup registers a function run natively after the harness and before the goroutine-leak check (helper
+// packages use it to shut down their own native scaffolding, which the symbolic executor never runs).
+func Cleanup(f func()) { cleanups = append(cleanups, f) }
+
 // Run loads the replay vector and runs the selected harness (used by the generated replay test).
 func Run(harnesses map[string]func()) {
 	path := os.Getenv("VERIF_REPLAY")
@@ -147,6 +153,9 @@ func Run(harnesses map[string]func()) {
 	}
 	before := runtime.NumGoroutine()
 	h()
+	for _, f := range cleanups {
+		f()
+	}
 	if checkLeaks {
 		deadline := time.Now().Add(500 * time.Millisecond)
 		for runtime.NumGoroutine() > before && time.Now().Before(deadline) {
